@@ -865,6 +865,9 @@ class Sym:
         c = diff.const_value()
         if c is not None:
             return {'<': c < 0, '<=': c <= 0, '>': c > 0, '>=': c >= 0, '==': c == 0, '!=': c != 0}[op]
+        sg = closed_sign(diff)
+        if sg is not None:
+            return {'<': sg < 0, '<=': sg < 0, '>': sg > 0, '>=': sg > 0, '==': False, '!=': True}[op]
         a, b = self.z(), o.z()
         at = frozenset(self.atoms() | o.atoms())
         if op == '<':
@@ -1703,6 +1706,41 @@ def atom_value(i, inputs, cache):
         raise KeyError('no value for atom %s' % at.name)
     cache[i] = v
     return v
+
+
+CLOSED_STATS = {'decided': 0}
+
+
+def closed_sign(x):
+    """sign (+1 / -1) of an expression built ONLY from constant atoms (pi, sqrt / trig / sign of such), decided by
+    float evaluation with a cancellation-aware margin; None when the expression has free atoms or is too close to 0
+    (then the solver decides).  Part of the claim: listed as an assumption in the evidence."""
+    ids = x.atoms()
+    if not ids:
+        return None
+    cache = {}
+    env = {}
+    try:
+        for i in ids:
+            env[i] = atom_value(i, {}, cache)
+    except KeyError:
+        return None
+    sign = 1
+    for poly in ((x.n,) if x.d is ONE else (x.n, x.d)):
+        tot = 0.0
+        mag = 0.0
+        for m, c in poly.items():
+            v = float(c)
+            for i, e in m:
+                v *= env[i] ** e
+            tot += v
+            mag += abs(v)
+        if not (abs(tot) > 1e-9 * mag + 1e-300) or tot != tot:
+            return None
+        if tot < 0:
+            sign = -sign
+    CLOSED_STATS['decided'] += 1
+    return sign
 
 
 def sym_value(x, inputs, cache=None):
